@@ -508,6 +508,16 @@ impl Send {
         // Clear all pending outbound frames
         self.prioritize.clear_queue(buffer, stream);
         self.prioritize.reclaim_all_capacity(stream, counts);
+
+        // A stream that is still waiting to be opened has just lost its
+        // HEADERS: nothing of it ever reached the peer, so an implicit reset
+        // that was scheduled for it (all handles dropped) must not turn into a
+        // RST_STREAM frame on an idle stream.
+        if stream.is_pending_open {
+            if let Some(reason) = stream.state.get_scheduled_reset() {
+                stream.set_reset(reason, Initiator::Library);
+            }
+        }
     }
 
     pub fn apply_remote_settings<B>(
